@@ -130,36 +130,11 @@ def run(ctx, report: Report) -> None:
 
     # ---- R4 ----------------------------------------------------------------------------------------------
     r4 = report.rule('C03-R4', 'matchers are scoped on the call target and built from the same fields', floor=4)
-    fields = None
-    for name in ('match', 'closest', 'filter', 'iselect'):
-        fn = mmod.functions.get(f'SoupSieve.{name}')
-        if fn is None:
-            raise AnalysisError(f'SoupSieve.{name} not found')
-        target = fn.args.args[1].arg
-        ctors = [c for c in walk_no_nested(fn) if isinstance(c, ast.Call) and call_name(c) == 'CSSMatch']
-        scoped = [c for c in ctors if len(c.args) >= 2 and unparse(c.args[1]) == target]
-        r4.instance({'method': f'SoupSieve.{name}', 'matchers_built': len(ctors), 'scoped_on_target': len(scoped)}, key=name)
-        r4.obligation(bool(scoped))
-        if not scoped:
-            r4.violation(f'css_match.SoupSieve.{name} scope', mmod.where(fn),
-                         f'SoupSieve.{name} never builds a matcher whose scope is its call target `{target}`: :scope / & '
-                         f'do not denote the element the call was made on')
-        for c in ctors:
-            f = tuple(unparse(a) for i, a in enumerate(c.args) if i != 1)
-            if fields is None:
-                fields = f
-            elif f != fields:
-                r4.violation(f'css_match.SoupSieve.{name} fields {f}', mmod.where(c),
-                             f'SoupSieve.{name} builds its matcher from {f}, its siblings from {fields}')
-    # the result of each method is the matcher's same-named operation on the target
-    pairs = {'match': 'match', 'closest': 'closest', 'filter': 'filter', 'iselect': 'select'}
-    for name, op in pairs.items():
-        fn = mmod.functions[f'SoupSieve.{name}']
-        ok = any(isinstance(c, ast.Call) and isinstance(c.func, ast.Attribute) and c.func.attr == op
-                 and isinstance(c.func.value, ast.Call) and call_name(c.func.value) == 'CSSMatch'
-                 for c in walk_no_nested(fn))
-        r4.instance({'method': f'SoupSieve.{name}', f'returns CSSMatch(...).{op}()': ok}, key=f'{name}-op')
-        r4.obligation(ok)
-        if not ok:
-            r4.violation(f'css_match.SoupSieve.{name} op', mmod.where(fn),
-                         f'SoupSieve.{name} does not return CSSMatch(...).{op}(...)')
+    from .sem import iframe_policy, soupsieve_methods_table
+    from ..interp import Obj
+    from ..tables import el_obj
+    soupsieve_methods_table(ctx, r4)
+    iframe_policy(ctx, r4, 'css_match.CSSMatch.closest', lambda: [], lambda html, restrict: False,
+                  'closest() is the nearest matching ancestor-or-self: the walk considers every ancestor, also across an iframe element',
+                  self_fields={'tag': el_obj('start'), 'selectors': Obj(_name='SELECTORS')},
+                  extra_stubs={'css_match.CSSMatch.match': lambda el: False, 'css_match.CSSMatch.match_selectors': lambda el, s_: False})
